@@ -346,37 +346,53 @@ pred WDead(p *pp) = !p.wrapErrs && isnil(p.wrappedErr)
 -- %w bookkeeping as on entry
 pred KW(p *pp) = p.wrapErrs == old(p.wrapErrs) && p.wrappedErr == old(p.wrappedErr)
 
+-- C17: calls of the registered error hook, and of any other user formatting method
+ghostvar hookcalls int
+ghostvar othercalls int
+ghostvar gother int
+
 -- the user-supplied methods: the rely relation of DESIGN 2.7. They may call back into the
 -- printer through its exported methods only, each of which is proved to re-establish this.
 assume func (v i.SafeFormatter) SafeFormat(p *pp, verb rune)
   requires PI(p) && inv(p.buf)
-  modifies p
+  modifies p, othercalls
   may-panic
   ensures-always PI(p) && Same(p) && Kept(p) && WP(p.fmt) && inv(p.buf)
+  ensures-always othercalls > old(othercalls)
 
 assume func (v i.anon) SafeMessage() (s string)
+  modifies othercalls
   may-panic
+  ensures-always othercalls > old(othercalls)
 
 assume func redactErrorFn(err error, p *pp, verb rune)
   requires PI(p) && inv(p.buf)
-  modifies p
+  modifies p, hookcalls
   may-panic
   ensures-always PI(p) && Same(p) && Kept(p) && WP(p.fmt) && inv(p.buf)
+  ensures-always hookcalls > old(hookcalls)
 
 assume func (v Formatter) Format(p *pp, verb rune)
   requires PI(p) && inv(p.buf)
-  modifies p
+  modifies p, othercalls
   may-panic
   ensures-always PI(p) && Same(p) && Kept(p) && WP(p.fmt) && inv(p.buf)
+  ensures-always othercalls > old(othercalls)
 
 assume func (v GoStringer) GoString() (s string)
+  modifies othercalls
   may-panic
+  ensures-always othercalls > old(othercalls)
 
 assume func (v Stringer) String() (s string)
+  modifies othercalls
   may-panic
+  ensures-always othercalls > old(othercalls)
 
 assume func (v error) Error() (s string)
+  modifies othercalls
   may-panic
+  ensures-always othercalls > old(othercalls)
 
 assume func Sprintfn_printer(p *pp)
   requires PI(p) && inv(p.buf)
@@ -542,6 +558,13 @@ func (p *pp) catchPanic(arg interface{}, verb rune, method string)
 
 func (p *pp) handleMethods(verb rune) (handled bool)
   public verb
+  ghost gother = othercalls at entry
+  assert [C06,C17] p.buf.gctx != 2 before "v.SafeFormat(p, verb)"
+  assert [C06,C17] p.buf.gctx != 2 before "p.fmtString(v.SafeMessage(), verb)"
+  assert [C06,C17] p.buf.gctx != 2 before "redactErrorFn(v, p, verb)"
+  assert [C17] v == p.arg && (old(verb) == 119 ==> verb == 118) && (old(verb) != 119 ==> verb == old(verb)) before "redactErrorFn(v, p, verb)"
+  assert [C17] othercalls == gother after "redactErrorFn(v, p, verb)"
+  ensures [C17] !old(p.erroring) && old(p.buf.gctx) != 2 && hasType(old(p.arg), "error") && !hasType(old(p.arg), "interfaces.SafeFormatter") && !hasType(old(p.arg), "interface(SafeMessage()_string)") && !isnil(redactErrorFn) && (verb != 119 || WCapture(p, old(p.arg))) ==> handled && hookcalls > old(hookcalls)
   ensures [C15] verb == 119 && !old(p.erroring) && WCapture(p, old(p.arg)) ==> p.wrapErrs && p.wrappedErr == old(p.arg)
   ensures [C15] verb == 119 && !old(p.erroring) && !WCapture(p, old(p.arg)) ==> !p.wrapErrs && isnil(p.wrappedErr) && handled
   ensures [C15] verb == 119 && !old(p.erroring) && !old(p.fmt.sharpV) && hasType(old(p.arg), "error") ==> handled
